@@ -1002,7 +1002,10 @@ type swamp struct {
 
 	// beaconBuildMu serialises the lazy build of the ordered beacons, so a
 	// caller never walks a beacon that another caller is still filling and
-	// two callers never fill the same beacon twice.
+	// two callers never fill the same beacon twice. Writers take it around
+	// their index maintenance as well: an Add or Delete that slips in between
+	// the build of the ASC and the DESC beacon marks the DESC one as
+	// initialised (every beacon method does) and its build is then skipped.
 	beaconBuildMu sync.Mutex
 
 	// creatingTreasures tracks treasures that have been created via CreateTreasure but not yet
@@ -3061,6 +3064,9 @@ func (s *swamp) deleteTreasureFromBeacons(key string) {
 
 // deleteTreasureIfBeaconInitialized - delete the key from the beacon only if the beacon is initialized
 func (s *swamp) deleteTreasureIfBeaconInitialized(b beacon.Beacon, key string) {
+	// not while a lazy build of this beacon is in progress: see beaconBuildMu
+	s.beaconBuildMu.Lock()
+	defer s.beaconBuildMu.Unlock()
 	if b.IsInitialized() {
 		b.Delete(key)
 	}
@@ -3323,6 +3329,9 @@ func (s *swamp) buildBeacon(beaconASC beacon.Beacon, beaconDESC beacon.Beacon, b
 }
 
 func (s *swamp) addToKeyBeacon(treasureInterface treasure.Treasure) {
+	// not while a lazy build of these beacons is in progress: see beaconBuildMu
+	s.beaconBuildMu.Lock()
+	defer s.beaconBuildMu.Unlock()
 	// check if the index is already built
 	// if not, then we don't need to add the treasures to the index
 	if !s.keyBeaconASC.IsInitialized() {
@@ -3343,6 +3352,9 @@ func (s *swamp) addToKeyBeacon(treasureInterface treasure.Treasure) {
 // addToCreationTimeBeacon - add the treasures to the creationTimeBeaconASC and creationTimeBeaconDESC slices if the treasure
 // is not already in the slices
 func (s *swamp) addToCreationTimeBeacon(treasureInterface treasure.Treasure) {
+	// not while a lazy build of these beacons is in progress: see beaconBuildMu
+	s.beaconBuildMu.Lock()
+	defer s.beaconBuildMu.Unlock()
 	// check if the index is already built
 	// if not, then we don't need to add the treasures to the index
 	if !s.creationTimeBeaconASC.IsInitialized() {
@@ -3360,6 +3372,9 @@ func (s *swamp) addToCreationTimeBeacon(treasureInterface treasure.Treasure) {
 	}
 }
 func (s *swamp) addToUpdateTimeBeacon(treasureInterface treasure.Treasure) {
+	// not while a lazy build of these beacons is in progress: see beaconBuildMu
+	s.beaconBuildMu.Lock()
+	defer s.beaconBuildMu.Unlock()
 	// check if the index is already built
 	// if not, then we don't need to add the treasures to the index
 	if !s.updateTimeBeaconASC.IsInitialized() {
@@ -3378,6 +3393,9 @@ func (s *swamp) addToUpdateTimeBeacon(treasureInterface treasure.Treasure) {
 
 }
 func (s *swamp) addToExpirationTimeBeacon(treasureInterface treasure.Treasure) {
+	// not while a lazy build of these beacons is in progress: see beaconBuildMu
+	s.beaconBuildMu.Lock()
+	defer s.beaconBuildMu.Unlock()
 	// check if the index is already built
 	// if not, then we don't need to add the treasures to the index
 	if !s.expirationTimeBeaconASC.IsInitialized() {
@@ -3397,6 +3415,9 @@ func (s *swamp) addToExpirationTimeBeacon(treasureInterface treasure.Treasure) {
 
 }
 func (s *swamp) addToValueBeacon(treasureInterface treasure.Treasure) {
+	// not while a lazy build of these beacons is in progress: see beaconBuildMu
+	s.beaconBuildMu.Lock()
+	defer s.beaconBuildMu.Unlock()
 	// check if the index is already built
 	// if not, then we don't need to add the treasures to the index
 	if !s.valueBeaconASC.IsInitialized() {
